@@ -1,5 +1,6 @@
 """C12 — generated Python code reproduces the configuration."""
 
+import enum
 import ast
 import cmath
 import hashlib
@@ -99,8 +100,8 @@ def strategy_(draw, tier):
             'gen': draw(st.sampled_from(['new_codegen', 'auto_config_codegen'])),
             'subs': [], 'mec': draw(st.sampled_from([None, None, 0, 1, 2])), 'history': False}
   recipe = draw(dags.dag(
-      max_nodes=8, min_nodes=2, leaf_profile='any', bts=('Config', 'Config', 'Partial'),
-      kinds=['B', 'B', 'B', 'list', 'tuple', 'dict', 'kdict', 'Bpos', 'AFP'],
+      max_nodes=8, min_nodes=2, leaf_profile='any_enum', bts=('Config', 'Config', 'Partial'),
+      kinds=['B', 'B', 'B', 'list', 'tuple', 'dict', 'kdict', 'Bpos', 'AFP', 'set'],
       fns=['things:f2', 'things:h1', 'things:Base', 'things:LeafCls'],
       root_kinds=['B'], p_alias=0.8, allow_copyof=False, tags=True))
   r = draw(st.floats(0, 1))
@@ -327,6 +328,9 @@ def known_features(gen, root, has_tags, sub_fixtures):
     out.append('auto_config_codegen:tagged-argfactory-argument')
   if gen == 'auto_config_codegen' and _tagged_shared_value(root):
     out.append('auto_config_codegen:tagged-shared-value')
+  if any(isinstance(v, (set, frozenset)) and any(isinstance(e, enum.Enum) for e in v) for _, v in C.walk(root)):
+    # enum members inside a set are emitted fully qualified without an import
+    out.append(gen + ':enum-in-set')
   if sub_fixtures:
     idn = C.identity_nodes(root)
     if any(len(ps) > 1 for _, ps in idn.values()):
